@@ -582,6 +582,29 @@ def rule_degree(ctx):
     return res.finish(10)
 
 
+def rule_direct(ctx):
+    """'the three index kinds return the same neighbours': they compare reduced distances computed by the metric's own
+    rdistance.  A scan that takes its distances from an expanded square |x|^2 - 2 x.q + |q|^2 instead compares numbers
+    that have lost their significant digits far from the origin, and disagrees with the trees there."""
+    from . import cancel
+    res = RuleResult("R-C07-direct", "no distance in linfa-nn is computed through the expanded square |a|^2 + |b|^2 - 2<a,b>")
+    F = ctx.facts()
+    fns = nn_fns(F)
+    n = 0
+    for fn in fns:
+        for node, what in cancel.sites(fn):
+            n += 1
+            key = fn_key(fn)
+            res.instance("%s : expanded square" % key)
+            res.violate("%s : distance-by-expansion" % key, "`%s` is a %s: for points far from the origin the subtraction cancels and the value is not the (reduced) distance any more, so this code path disagrees with the ones that use the metric's own rdistance" % (Render(fn["crate"]).e(node)[:70], what), fn_loc(fn, node.get("ln")))
+    res.instance("%d functions of linfa-nn scanned, %d expanded squares" % (len(fns), n))
+    if fns:
+        res.ok()
+    else:
+        res.missing_anchor("functions of linfa-nn")
+    return res.finish(1)
+
+
 def rule_cover(ctx):
     """The ball of a tree node must contain every point stored below it: its radius is the largest distance from the
     centre over *all* points of both halves.  A radius computed over a shortened sequence (skip / take / step_by / filter)
@@ -635,4 +658,4 @@ def rule_cover(ctx):
 rule_memorder = layout.make_rule("R-C07-memorder", "raw memory-order buffers (as_slice_memory_order, into_raw_vec, as_ptr) of stored point batches are used by position only behind an is_standard_layout() test", lambda f: f["d"]["krate"] == "linfa_nn", "linfa-nn")
 
 def rules(tier):
-    return [rule_unit, rule_sib, rule_edge, rule_degree, rule_memorder, rule_cover]
+    return [rule_unit, rule_sib, rule_edge, rule_degree, rule_memorder, rule_cover, rule_direct]
